@@ -314,7 +314,7 @@ pub fn record(rounds: usize, threads: usize, ops: usize, path: &str) {
 /// very large stack so that the generator itself cannot overflow.
 pub fn deepgen(shape: &str, depth: usize, path: &str) {
     let (shape, path) = (shape.to_string(), path.to_string());
-    std::thread::Builder::new().stack_size(16 << 30).spawn(move || {
+    std::thread::Builder::new().stack_size(2 << 30).spawn(move || {
         use simplicity::node::CoreConstructible;
         let bytes = types::Context::with_context(|ctx| {
             let u = CN::unit(&ctx);
